@@ -46,7 +46,7 @@ class Lock:
 # build steps
 # ------------------------------------------------------------------------------------------------
 
-def build_tools():
+def build_tools(race=False):
     """extractor + harness, always rebuilt from the current sources (/verif and /repo)."""
     os.makedirs(BIN, exist_ok=True)
     notes = []
@@ -62,6 +62,14 @@ def build_tools():
     harness_ok = rc == 0
     if rc != 0:
         notes.append("harness build failed (does /repo still compile with -tags verif?): " + out[-3000:])
+    hr = os.path.join(BIN, "harness-race")
+    if os.path.exists(hr):
+        os.remove(hr)
+    if race and harness_ok:
+        rc, out = sh(["go", "build", "-race", "-tags", "verif", "-o", hr, "."], cwd=os.path.join(VERIF, "harness"),
+                     env=dict(GOENV, CGO_ENABLED="1"))
+        if rc != 0:
+            notes.append("race-instrumented harness did not build: " + out[-1500:])
     return harness_ok, notes
 
 
@@ -365,7 +373,7 @@ def main():
     notes = []
 
     with Lock():
-        harness_ok, n1 = build_tools()
+        harness_ok, n1 = build_tools(race=cfg.get("race_binary", False))
         notes += n1
         gen_ok, missing, gout = regenerate()
         if not gen_ok:
